@@ -163,6 +163,25 @@ func (fr *Frame) recvAssume(st *State, ch ssa.Value, val Term, elem types.Type) 
 	}
 }
 
+// strOfBytes: string(b) as an uninterpreted function of the slice header. The bytes are assumed
+// not to be overwritten between two conversions of the same slice within one function.
+func (vc *VC) strOfBytes(st *State, b Term) Term {
+	vc.DeclareFun("bytesstr", []Sort{SSlice}, SStr)
+	r := App(SStr, "bytesstr", b)
+	st.assume(Eq(App(SInt, "strlen", r), SLen(b)))
+	vc.assume("string(b) is modelled as a function of the slice header: the bytes are assumed unchanged between conversions of the same slice within one function")
+	return r
+}
+
+// strBytes: the byte slice of a string value, as an uninterpreted function with the obvious length.
+func (vc *VC) strBytes(st *State, s Term) Term {
+	vc.DeclareFun("strbytes", []Sort{SStr}, SSlice)
+	r := App(SSlice, "strbytes", s)
+	st.assume(And(Eq(SLen(r), App(SInt, "strlen", s)), Eq(SCap(r), App(SInt, "strlen", s)), Lt(Rid(SBase(r)), IntLit(0)), Eq(Roff(SBase(r)), IntLit(0))))
+	vc.assume("[]byte(s) is modelled as a function of the string value and its result as immutable")
+	return r
+}
+
 // bumpRecv increments the ghost receive counter of channel ch when cond holds.
 func (vc *VC) bumpRecv(st *State, ch Term, cond Term, elem types.Type) {
 	cur := vc.recvCounts(st, elem)
@@ -744,24 +763,14 @@ func (fr *Frame) instr(st *State, b *ssa.BasicBlock, in ssa.Instruction) (bool, 
 		}
 		// string <-> []byte and friends: uninterpreted, content-preserving only by name
 		if fs == SSlice && ts == SStr {
-			// string(bytes): a function of the byte contents; modelled as a fresh string of equal length
-			r := vc.Fresh(x.Name(), SStr)
-			st.assume(Eq(App(SInt, "strlen", r), SLen(a)))
-			vc.note("%s: string(bytes) contents unmodelled", fr.pos(in.Pos()))
-			fr.vals[x] = r
+			// string(bytes): modelled as a function of the slice header (see strOfBytes)
+			fr.vals[x] = vc.strOfBytes(st, a)
 			break
 		}
 		if fs == SStr && ts == SSlice {
-			base := vc.allocObject(st, nil)
-			elem := x.Type().Underlying().(*types.Slice).Elem()
-			es, _ := vc.tt.SortOf(elem)
-			// contents unconstrained: havoc that object's bytes
-			old := vc.heap(st, es)
-			nh := vc.MixHeap(es, old, Neq(Rid(Term{"q!r", SRef}), Rid(base)))
-			st.heaps[es] = nh
-			st.touch(es)
-			n := App(SInt, "strlen", a)
-			def(x, MkSlice(base, n, n))
+			// []byte(s): a copy of the string's bytes. Modelled as a function of the string value
+			// (the bytes of equal strings are equal); the result is treated as immutable.
+			def(x, vc.strBytes(st, a))
 			break
 		}
 		return false, havocValue(x, fmt.Sprintf("unsupported conversion %s -> %s", x.X.Type(), x.Type()))
@@ -816,20 +825,43 @@ func (fr *Frame) instr(st *State, b *ssa.BasicBlock, in ssa.Instruction) (bool, 
 	case *ssa.Call:
 		return false, fr.call(st, x, x.Common(), x)
 	case *ssa.Defer:
-		fr.defers = append(fr.defers, x)
-		// only statically known, unconditional defers are supported: checked at RunDefers
+		known := false
+		for _, d := range fr.defers {
+			if d == x {
+				known = true
+			}
+		}
+		if !known {
+			fr.defers = append(fr.defers, x)
+		}
+		// the arguments are evaluated now; remember that this defer is registered on this path
+		st.ghost[fr.deferKey(x)] = True
 	case *ssa.RunDefers:
-		for i := len(fr.defers) - 1; i >= 0; i-- {
-			d := fr.defers[i]
-			if !d.Block().Dominates(b) {
-				vc.note("%s: conditional defer not modelled", fr.pos(d.Pos()))
-				st.taint = True
-				vc.havocAll(st)
+		// all defer statements of the function, most recently registered first; one that does not
+		// dominate this point runs only on the paths that registered it
+		all := fr.allDefers()
+		for i := len(all) - 1; i >= 0; i-- {
+			d := all[i]
+			flag, ok := st.ghost[fr.deferKey(d)]
+			if !ok || flag.S == "false" {
 				continue
 			}
-			if err := fr.call(st, nil, d.Common(), d); err != nil {
+			if d.Block().Dominates(b) || flag.S == "true" {
+				if err := fr.call(st, nil, d.Common(), d); err != nil {
+					return false, err
+				}
+				continue
+			}
+			yes := st.clone()
+			yes.assume(flag)
+			yes.reach = vc.Define("reach", yes.reach)
+			if err := fr.call(yes, nil, d.Common(), d); err != nil {
 				return false, err
 			}
+			no := st.clone()
+			no.assume(Not(flag))
+			no.reach = vc.Define("reach", no.reach)
+			*st = *vc.mergeStates([]*State{yes, no})
 		}
 	case *ssa.Go:
 		vc.note("%s: go statement: outside the subset", fr.pos(in.Pos()))
@@ -988,6 +1020,23 @@ func (vc *VC) convertStruct(a Term, from, to types.Type) (Term, bool) {
 		return Term{"mk!" + string(ts), ts}, true
 	}
 	return App(ts, "mk!"+string(ts), args...), true
+}
+
+func (fr *Frame) deferKey(d *ssa.Defer) string {
+	return fmt.Sprintf("defer!%s!%d!%d", fr.path, d.Block().Index, d.Pos())
+}
+
+// allDefers lists the defer statements of the function in block/instruction order.
+func (fr *Frame) allDefers() []*ssa.Defer {
+	var out []*ssa.Defer
+	for _, b := range fr.fn.Blocks {
+		for _, in := range b.Instrs {
+			if d, ok := in.(*ssa.Defer); ok {
+				out = append(out, d)
+			}
+		}
+	}
+	return out
 }
 
 // derivedAddr: addresses computed from a checked base (or fresh) need no second nil check.
@@ -1779,7 +1828,12 @@ func (fr *Frame) lookupLocal(name string, at *ssa.BasicBlock, st *State, li *loo
 
 // baseEnv: parameters, receiver, free variables; old() refers to the function entry.
 func (fr *Frame) baseEnv(st *State) *SpecEnv {
-	env := &SpecEnv{vc: fr.vc, vars: map[string]SpecVal{}, cur: st, old: fr.entry, pkg: fr.fn.Pkg.Pkg}
+	env := &SpecEnv{vc: fr.vc, vars: map[string]SpecVal{}, cur: st, old: fr.entry, pkg: fr.fn.Pkg.Pkg, tparams: map[string]types.Type{}}
+	if tps := fr.fn.TypeParams(); tps != nil {
+		for i := 0; i < tps.Len(); i++ {
+			env.tparams[tps.At(i).Obj().Name()] = tps.At(i)
+		}
+	}
 	for _, p := range fr.fn.Params {
 		if t, ok := fr.vals[p]; ok {
 			env.vars[p.Name()] = SpecVal{T: t, Ty: p.Type()}
